@@ -581,3 +581,139 @@ Proof.
   unfold spt_decide_slow, spt_decide. induction (cand_trees alts) as [|T l IH]; cbn; [reflexivity|].
   rewrite spt_checkf_eq, IH. reflexivity.
 Qed.
+
+(* ------------------------------------------------------------------------------------------------ *)
+(** * Invariance: storage order / multiplicities of the votes, order of the alternatives, relabelling *)
+
+Lemma spt_spec_profile_incl alts p p' T :
+  (forall v, In v p' -> In v p) -> spt_spec alts p T -> spt_spec alts p' T.
+Proof. intros Hi [H1 H2]. split; [exact H1|]. intros v Hv. apply H2. auto. Qed.
+
+(* the verdict only depends on the SET of votes: permuting, repeating, regrouping votes is irrelevant *)
+Theorem spt_decide_profile_ext alts p p' :
+  (forall v, In v p <-> In v p') -> spt_decide alts p = spt_decide alts p'.
+Proof.
+  intros He. unfold spt_decide. induction (cand_trees alts) as [|T l IH]; cbn; [reflexivity|].
+  rewrite IH. f_equal. apply bool_eq_iff. rewrite !spt_checkf_correct.
+  split; apply spt_spec_profile_incl; intros v; apply He.
+Qed.
+
+Theorem spt_decide_profile_perm alts p p' : Permutation p p' -> spt_decide alts p = spt_decide alts p'.
+Proof.
+  intros Hp. apply spt_decide_profile_ext. intros v.
+  split; apply Permutation_in; [exact Hp|apply Permutation_sym; exact Hp].
+Qed.
+
+Lemma spanning_tree_alts_perm alts alts' T :
+  Permutation alts alts' -> spanning_tree alts T -> spanning_tree alts' T.
+Proof.
+  intros Hp (H1 & H2 & H3). split; [rewrite <- (Permutation_length Hp); exact H1|]. split.
+  - eapply Forall_impl; [|exact H2]. intros e (Ha & Hb & Hn).
+    split; [eapply Permutation_in; eauto|]. split; [eapply Permutation_in; eauto|exact Hn].
+  - eapply connected_perm; eauto.
+Qed.
+
+Lemma SPT_alts_perm alts alts' p : Permutation alts alts' -> SPT alts p -> SPT alts' p.
+Proof.
+  intros Hp (T & H1 & H2). exists T. split; [eapply spanning_tree_alts_perm; eauto|exact H2].
+Qed.
+
+Theorem spt_decide_alts_perm alts alts' p :
+  NoDup alts -> Permutation alts alts' -> spt_decide alts p = spt_decide alts' p.
+Proof.
+  intros Hnd Hp. apply bool_eq_iff.
+  rewrite (spt_decide_correct alts p Hnd), (spt_decide_correct alts' p (Permutation_NoDup Hp Hnd)).
+  split; apply SPT_alts_perm; [exact Hp|apply Permutation_sym; exact Hp].
+Qed.
+
+(* relabelling *)
+Definition mapE (f : N -> N) (T : list edge) : list edge := map (fun e => (f (fst e), f (snd e))) T.
+
+Lemma adj_mapE f T a b : adj T a b -> adj (mapE f T) (f a) (f b).
+Proof.
+  unfold adj, mapE. intros [H|H]; [left|right];
+    apply in_map_iff; eexists; (split; [|exact H]); reflexivity.
+Qed.
+
+Lemma path_map f T S a b : path_in T S a b -> path_in (mapE f T) (map f S) (f a) (f b).
+Proof.
+  induction 1 as [a Ha|a b c Ha Hab _ IH].
+  - apply path_refl. apply in_map. exact Ha.
+  - eapply path_step; [apply in_map; exact Ha|apply adj_mapE; exact Hab|exact IH].
+Qed.
+
+Lemma connected_map f T S : connected T S -> connected (mapE f T) (map f S).
+Proof.
+  intros Hc a' b' Ha' Hb'. apply in_map_iff in Ha'. apply in_map_iff in Hb'.
+  destruct Ha' as (a & <- & Ha), Hb' as (b & <- & Hb). apply path_map. apply Hc; assumption.
+Qed.
+
+Lemma spt_spec_map f alts p T :
+  (forall a b, In a alts -> In b alts -> f a = f b -> a = b) ->
+  spt_spec alts p T -> spt_spec (map f alts) (map (map f) p) (mapE f T).
+Proof.
+  intros Hinj [(H1 & H2 & H3) H4]. split; [split; [|split]|].
+  - unfold mapE. rewrite !map_length. exact H1.
+  - rewrite Forall_forall in *. intros e' He'. apply in_map_iff in He'. destruct He' as (e & <- & He).
+    destruct (H2 e He) as (Ha & Hb & Hn). unfold edge_wf. cbn [fst snd].
+    split; [apply in_map; exact Ha|]. split; [apply in_map; exact Hb|].
+    intros Heq. apply Hn. apply Hinj; assumption.
+  - apply connected_map. exact H3.
+  - intros v' Hv' k. apply in_map_iff in Hv'. destruct Hv' as (v & <- & Hv).
+    rewrite firstn_map. apply connected_map. apply H4. exact Hv.
+Qed.
+
+Definition inv_on (f : N -> N) (U : list N) (b : N) : N :=
+  match find (fun a => N.eqb (f a) b) U with Some a => a | None => b end.
+
+Lemma inv_on_ok f U a : (forall x y, f x = f y -> x = y) -> In a U -> inv_on f U (f a) = a.
+Proof.
+  intros Hinj Ha. unfold inv_on. destruct (find (fun a0 => N.eqb (f a0) (f a)) U) as [a'|] eqn:Ef.
+  - apply find_some in Ef. destruct Ef as [_ E]. apply N.eqb_eq in E. apply Hinj. exact E.
+  - pose proof (find_none _ _ Ef a Ha) as E. cbn in E. rewrite N.eqb_refl in E. discriminate.
+Qed.
+
+Lemma map_inv_on f U l :
+  (forall x y, f x = f y -> x = y) -> incl l U -> map (inv_on f U) (map f l) = l.
+Proof.
+  intros Hinj Hi. rewrite map_map. rewrite <- (map_id l) at 2. apply map_ext_in.
+  intros a Ha. apply inv_on_ok; auto.
+Qed.
+
+Theorem SPT_relabel f alts p :
+  (forall x y, f x = f y -> x = y) -> (SPT (map f alts) (map (map f) p) <-> SPT alts p).
+Proof.
+  intros Hinj. split.
+  - intros (T' & HT'). set (U := alts ++ concat p). set (g := inv_on f U).
+    exists (mapE g T').
+    assert (Ha : map g (map f alts) = alts).
+    { apply map_inv_on; [exact Hinj|]. intros x Hx. apply in_or_app. left; exact Hx. }
+    assert (Hp : map (map g) (map (map f) p) = p).
+    { rewrite map_map. rewrite <- (map_id p) at 2. apply map_ext_in. intros v Hv.
+      apply map_inv_on; [exact Hinj|]. intros x Hx. apply in_or_app. right.
+      apply in_concat. exists v. split; assumption. }
+    rewrite <- Ha at 1. rewrite <- Hp. apply spt_spec_map; [|exact HT'].
+    intros a' b' Ha' Hb' Heq. apply in_map_iff in Ha'. apply in_map_iff in Hb'.
+    destruct Ha' as (a & <- & Ha0), Hb' as (b & <- & Hb0).
+    unfold g in Heq. rewrite !inv_on_ok in Heq; auto; try (apply in_or_app; left; assumption).
+    congruence.
+  - intros (T & HT). exists (mapE f T). apply spt_spec_map; [|exact HT].
+    intros a b _ _. apply Hinj.
+Qed.
+
+Lemma NoDup_map_injective (f : N -> N) l :
+  (forall x y, f x = f y -> x = y) -> NoDup l -> NoDup (map f l).
+Proof.
+  intros Hinj. induction 1 as [|x l Hx _ IH]; cbn; constructor; [|exact IH].
+  intros Hin. apply in_map_iff in Hin. destruct Hin as (y & Hy & Hyl). apply Hinj in Hy. subst. contradiction.
+Qed.
+
+Theorem spt_decide_relabel f alts p :
+  (forall x y, f x = f y -> x = y) -> NoDup alts ->
+  spt_decide (map f alts) (map (map f) p) = spt_decide alts p.
+Proof.
+  intros Hinj Hnd. apply bool_eq_iff.
+  rewrite (spt_decide_correct alts p Hnd),
+          (spt_decide_correct _ (map (map f) p) (NoDup_map_injective f alts Hinj Hnd)).
+  apply SPT_relabel. exact Hinj.
+Qed.
